@@ -8,6 +8,7 @@ from functools import partial
 import logging
 import os
 import re
+import shutil
 from warnings import warn
 
 import matplotlib.pyplot as plt
@@ -1663,7 +1664,28 @@ class FlowProposal(RejectionProposal):
 
         # Flow might have exited before any weights were saved.
         if weights_file is not None:
+            # The weights are saved in place after moving the previous file
+            # to <weights_file>.old, so if the run was killed whilst saving
+            # them the file is missing or incomplete and the previous weights
+            # (which match the checkpoint) must be restored.
+            old_weights_file = weights_file + ".old"
             if os.path.exists(weights_file):
+                try:
+                    self.flow.reload_weights(weights_file)
+                except (EOFError, OSError, RuntimeError) as e:
+                    if not os.path.exists(old_weights_file):
+                        raise
+                    logger.warning(
+                        f"Could not load weights from {weights_file} ({e}), "
+                        f"restoring {old_weights_file}"
+                    )
+                    shutil.move(old_weights_file, weights_file)
+                    self.flow.reload_weights(weights_file)
+            elif os.path.exists(old_weights_file):
+                logger.warning(
+                    f"{weights_file} is missing, restoring {old_weights_file}"
+                )
+                shutil.move(old_weights_file, weights_file)
                 self.flow.reload_weights(weights_file)
         else:
             logger.warning("Could not reload weights for flow")
